@@ -181,3 +181,27 @@ PROPS["C10"] = {
 }
 
 NOT_APPLICABLE = {}
+
+PROPS["C15"] = {
+    "lean_modules": ["AvroModel.Props.C15"],
+    "required_theorems": ["total", "total_closed", "cyclic_not_ok", "cyclic_is_error", "deterministic",
+                          "mapping_bool", "mapping_int", "mapping_float32", "mapping_float64", "mapping_string",
+                          "mapping_bytes", "mapping_slice", "mapping_map", "mapping_ptr", "mapping_struct",
+                          "mapping_registered", "mapping_unsupported", "ptrWrap_plain", "ptrWrap_stays",
+                          "omitWrap_plain", "omitWrap_union", "fields_spec", "fields_names"],
+    "harness": ["C15"],
+    "careful": True,
+    "level_text": "TBD",
+    "level_note": "TBD",
+    "rule": "TBD",
+    "trusted": [],
+}
+PROPS["C20"] = {
+    "lean_modules": ["AvroModel.Props.C20"],
+    "required_theorems": ["last_wins_schema"],
+    "harness": ["C20"],
+    "level_text": "TBD",
+    "level_note": "TBD",
+    "rule": "TBD",
+    "trusted": [],
+}
